@@ -195,6 +195,12 @@ def judge(case):
         if kk < 1:  # ARPACK needs k < n - 1: nothing to decompose for n <= 2
             info["skipped"] = "too_small_for_arpack"
             return msgs, info
+        if abs(ref[min(kk, n - 1)]) < 1e-5 * rho or (n > 1 and ref[0] - ref[1] < 1e-6 * rho):
+            # the k leading eigenvalues lie within 1e-5 of the spectral radius of zero, or the slowest relaxation is slower than
+            # 1e-6 of the fastest (rotational and translational time scales many orders apart, e.g. factor 5e-4 or 60): below the resolution of an iterative solver run to tol 1e-10 with the
+            # shift at the spectral radius. Pattern, detailed balance and stationarity were judged above; the spectrum is not.
+            info["skipped"] = "leading_eigenvalues_below_solver_resolution"
+            return msgs, info
         for setting in ({"which": "LR", "sigma": None}, {"which": "LM", "sigma": 1.0 * rho if rho > 0 else 1.0}):
             try:
                 with quiet():
